@@ -256,7 +256,7 @@ class MarketSpec:
         # initial image
         rcs = {}
         for s in self.sels:
-            b = self.book0.get(s[0]) or self.book0.get(s) or {}
+            b = self.book0.get(s) or self.book0.get(s[0]) or {}  # a (selection, handicap) key wins over the bare selection
             e = rc_entry(rcs, s)
             for side in ("atb", "atl", "trd"):
                 lv = b.get(side) or []
